@@ -298,15 +298,13 @@ func (p *party) KeyGen(ctx context.Context) ([]byte, error) {
 
 	defer close(p.closeChan)
 
-	preParamGenTimeout := defaultSafePrimeGenTimeout
+	// The safe primes are searched for until the context ends, but no longer than the default timeout
+	preParamGenCtx, cancelPreParamGen := context.WithTimeout(ctx, defaultSafePrimeGenTimeout)
+	defer cancelPreParamGen()
 
-	deadline, deadlineExists := ctx.Deadline()
-	if deadlineExists {
-		preParamGenTimeout = deadline.Sub(time.Now())
-	}
-	preParams, err := keygen.GeneratePreParams(preParamGenTimeout)
+	preParams, err := keygen.GeneratePreParamsWithContext(preParamGenCtx)
 	if err != nil {
-		panic(err)
+		return nil, fmt.Errorf("failed generating the safe primes: %w", err)
 	}
 
 	end := make(chan *keygen.LocalPartySaveData, 1)
